@@ -98,4 +98,16 @@ func init() {
 			p.ruleAccelTables(c, ea)
 		},
 	})
+	register(&PropertyDef{
+		ID: "C05", Level: "other",
+		Explanation: "E4 termination and totality.",
+		Run: func(p *Program, c *Check) {
+			ea := p.newEffAnalysis(p.VTA(), false)
+			ea.run()
+			p.ruleLoops(c, ea)
+			p.ruleRecursion(c)
+			p.ruleNilGuards(c)
+			p.ruleParseDiscipline(c)
+		},
+	})
 }
